@@ -5,6 +5,8 @@
 package backtest
 
 import (
+	"sync"
+
 	"github.com/cinar/indicator/v2/asset"
 	"github.com/cinar/indicator/v2/helper"
 	"github.com/cinar/indicator/v2/strategy"
@@ -32,6 +34,9 @@ type DataStrategyResult struct {
 type DataReport struct {
 	// Results are the backtest results for the assets.
 	Results map[string][]*DataStrategyResult
+
+	// mutex guards the results, as the report is written by all backtest workers.
+	mutex sync.Mutex
 }
 
 // NewDataReport initializes a new data report instance.
@@ -48,7 +53,9 @@ func (*DataReport) Begin(_ []string, _ []strategy.Strategy) error {
 
 // AssetBegin is called when backtesting for the given asset begins.
 func (d *DataReport) AssetBegin(name string, strategies []strategy.Strategy) error {
+	d.mutex.Lock()
 	d.Results[name] = make([]*DataStrategyResult, 0, len(strategies))
+	d.mutex.Unlock()
 	return nil
 }
 
@@ -70,7 +77,9 @@ func (d *DataReport) Write(assetName string, currentStrategy strategy.Strategy, 
 		Transactions: transactions,
 	}
 
+	d.mutex.Lock()
 	d.Results[assetName] = append(d.Results[assetName], result)
+	d.mutex.Unlock()
 
 	return nil
 }
